@@ -3,6 +3,7 @@ package main
 // Instantiation of sketches and the queries run on instantiations (TPL-1 parse, TPL-3 hole completeness).
 
 import (
+	"go/ast"
 	"fmt"
 	"go/parser"
 	"go/token"
@@ -238,11 +239,31 @@ func runTPLGo(w *World, r *Result, rel string, maxRep int) (ndecl, ninst int) {
 		}
 		insts := instances(d.content, maxRep)
 		failed := ""
+		positional := false
 		for _, in := range insts {
 			ninst++
 			src := goSource(in.text)
 			fset := token.NewFileSet()
-			if _, err := parser.ParseFile(fset, "gen.go", src, parser.SkipObjectResolution); err != nil {
+			file, err := parser.ParseFile(fset, "gen.go", src, parser.SkipObjectResolution)
+			if err == nil && !positional {
+				// TPL-5: a composite literal of a user type (its type is a hole) lists its fields by name: the
+				// order of the fields is the user's, and the analysis accepts the look-alike wrappers in both orders
+				ast.Inspect(file, func(n ast.Node) bool {
+					lit, ok := n.(*ast.CompositeLit)
+					if !ok || len(lit.Elts) < 2 {
+						return true
+					}
+					id, ok := lit.Type.(*ast.Ident)
+					if !ok || !(strings.HasPrefix(id.Name, "Id") || strings.HasPrefix(id.Name, "Ty") || strings.HasPrefix(id.Name, "Usr")) {
+						return true
+					}
+					if _, keyed := lit.Elts[0].(*ast.KeyValueExpr); !keyed {
+						positional = true
+					}
+					return true
+				})
+			}
+			if err != nil {
 				failed = fmt.Sprintf("unrolling=%d choice=%d: %v", in.rep, in.choice, err)
 				// an empty-slot failure is already reported by TPL-3
 				if _, isEmpty := emptyInSeparated(d.content); isEmpty && strings.Contains(err.Error(), "expected operand") {
@@ -251,6 +272,9 @@ func runTPLGo(w *World, r *Result, rel string, maxRep int) (ndecl, ninst int) {
 				}
 				break
 			}
+		}
+		if positional {
+			r.bad("TPL-5", d.label, cons+": positional literal of a user type", pos, "the template builds a value of a user-declared struct with an unkeyed composite literal: the order of the fields is the user's (the nullable-wrapper look-alikes are accepted with the data field first or last), so the values land in the wrong fields or the literal is ill-typed")
 		}
 		if failed == "" {
 			r.ok("TPL-1", d.label, cons, pos, fmt.Sprintf("%d instantiations (repetitions 0..%d, every alternative chosen) parse as Go", len(insts), maxRep), true)
